@@ -78,16 +78,16 @@ W_ASSUME = ["virtual clock hook (cfg rs_tftpd_verif) supplies time inside Worker
 REALTIME = {"srv", "srv-rt", "conc", "cli", "bin"}
 
 PROPS = {
-    "C01": {"suites": ["wsend", "srv"], "monitor": True, "title": "download fidelity", "assumptions": W_ASSUME},
+    "C01": {"suites": ["wsend", "srv", "conc"], "monitor": True, "title": "download fidelity", "assumptions": W_ASSUME},
     "C02": {"suites": ["wrecv", "srv"], "monitor": True, "title": "upload fidelity", "assumptions": W_ASSUME},
     "C03": {"suites": ["srv", "bin"], "monitor": True, "title": "directory confinement",
             "assumptions": ["no symbolic links inside the served directories; Unix path branch", "loopback UDP delivers the sequential request histories"]},
-    "C04": {"suites": ["pair", "wrecv", "wsend", "bin"], "monitor": True, "title": "loss tolerance",
+    "C04": {"suites": ["pair", "wrecv", "wsend", "bin", "srv"], "monitor": True, "title": "loss tolerance",
             "assumptions": W_ASSUME + ["time-outs are delivered at quiescence only (sender first): one fair schedule of the two timers"]},
     "C05": {"suites": ["srv"], "monitor": True, "title": "listener availability",
             "assumptions": ["OS resource exhaustion (threads, descriptors, memory growth) is outside the model", "loopback UDP"]},
     "C06": {"suites": ["srv"], "monitor": True, "title": "access policy", "assumptions": ["Path::exists as modelled by the POSIX tree walk; loopback UDP"]},
-    "C07": {"suites": ["wsend", "wrecv", "bin"], "monitor": True, "title": "termination", "assumptions": W_ASSUME},
+    "C07": {"suites": ["wsend", "wrecv", "bin", "srv"], "monitor": True, "title": "termination", "assumptions": W_ASSUME},
     "C08": {"suites": ["wsend", "wrecv", "wsend-long", "srv-rt", "bin"], "monitor": True, "title": "window flow control", "assumptions": W_ASSUME},
     "C09": {"suites": ["srv", "bin", "conc"], "monitor": True, "title": "option negotiation", "assumptions": ["loopback UDP; retransmission intervals measured to the second on the real binary (suite bin)"]},
     "C10": {"suites": ["codec-dec"], "monitor": True,
@@ -98,7 +98,7 @@ PROPS = {
             "assumptions": ["kernel threads, mpsc channels and connected UDP sockets behave as the rules of Model/System.v say (sampled by real schedules, not proved)"]},
     "C13": {"suites": ["wrecv", "srv"], "monitor": True, "title": "cleanup of failed uploads",
             "assumptions": W_ASSUME + ["POSIX unlink/truncate semantics as modelled; write errors (disk full) are modelled, not induced"]},
-    "C14": {"suites": ["cli", "pair", "bin"], "monitor": True, "title": "bundled client and server interoperate",
+    "C14": {"suites": ["cli", "pair", "bin", "conc"], "monitor": True, "title": "bundled client and server interoperate",
             "assumptions": ["loopback delivers the windows used (window x block size <= 128 KiB); IPv4 loopback, in-process Client::run and Server"]},
     "C15": {"suites": ["wsend-long", "wrecv-long", "srv-rt"], "monitor": True, "title": "block-number wrap-around", "assumptions": W_ASSUME},
     "C16": {"suites": ["wsend", "wrecv", "cfg", "srv", "bin"], "monitor": True, "title": "duplicate-packets mode", "assumptions": W_ASSUME},
